@@ -123,8 +123,15 @@ def run_case(M, kind, arg):
         dec = None if enc is None else call(M["color"].hex2rgb, enc)
         return "CCss %s %s %s" % (cstr(arg), copt(enc, cstr), copt(dec, c_rgb))
     if kind == "hexa":
-        out = call(M["color"].hexa_color, arg)
-        return "CHexa %s %s" % (cstr(arg), copt(out, cstr))
+        # arg: None | tuple/list of ints | str | ("other", repr): every input form of hexa_color
+        if arg is None: cin, val = "HNone", None
+        elif isinstance(arg, str): cin, val = "(HStr %s)" % cstr(arg), arg
+        elif isinstance(arg, tuple) and arg[:1] == ("other",): cin, val = "HOther", eval(arg[1])
+        else: cin, val = "(HTuple [%s])" % "; ".join(cz(x) for x in arg), tuple(arg)
+        ok, out = limited(lambda: M["color"].hexa_color(val))
+        if not ok and not isinstance(out, (ValueError, TypeError, KeyError)):
+            raise Skip(repr(out))
+        return "CHexa %s %s" % (cin, "None" if not ok else "(Some %s)" % copt(out, cstr))
     if kind in UNIT_KINDS:
         return run_unit_case(M, kind, arg)
     raise Skip("unknown kind " + kind)
@@ -240,6 +247,10 @@ def klass(kind, arg):
         return "dt/" + ("naive" if off is None else "utc" if off == 0 else "offset-min" if off % 60000000 == 0 else "offset-sec" if off % 1000000 == 0 else "offset-microsec") + ("-micro" if arg[6] else "")
     if kind in UNIT_KINDS:
         return unit_klass(kind, arg)
+    if kind == "hexa":
+        if isinstance(arg, str) and arg.strip().startswith("#") and not RE_COL.fullmatch(arg.strip()):
+            return "hexa_color/hash-passthrough"
+        return "hexa_color/" + ("none" if arg is None else "str" if isinstance(arg, str) else "other" if arg[:1] == ("other",) else "tuple")
     return kind
 
 
@@ -405,6 +416,12 @@ def gen_inputs(tier, rng, css):
         add("css", name); add("css", name.upper() if rng.random() < .5 else name.capitalize())
     for t in ["", "nosuchcolour", "re d", " red", "grey0", "#FF0000"]: add("css", t)
     for t in HEXA_HAND: add("hexa", t)
+    for t in [None, (171, 205, 239), (0, 0, 0), (255, 255, 255), (171, 205, 238, 128), (171, 205, -1), (171, 205, 256), (), (1, 2),
+              ("other", "[171, 205, 239]"), ("other", "{}"), ("other", "123456"), ("other", "b'red'"), ("other", "1.5"),
+              "#f00", "#F00", " #ABCDEF", "#abcdef ", "#12345", "#1234567", "#GGGGGG", "# 00000", "#", "##000000", "transparent", "#٠٠٠٠٠٠"]:
+        add("hexa", t)
+    for _ in range(30 if q else 1500):
+        add("hexa", tuple(rng.choice([0, 255, 128, -1, 256, rng.randint(0, 255)]) for _ in range(rng.choice([3, 3, 3, 2, 4]))))
     for name, _v in (css[:20] if q else css): add("hexa", rng.choice(["", " ", "\t"]) + name + rng.choice(["", " ", "\n"]))
     # offsets were drawn in seconds: the cases carry microseconds; add offsets with a sub-second part (datetime allows them)
     inp = [(k, a[:7] + (None if a[7] is None else a[7] * 10 ** 6,)) if k in ("dt", "dateofdt") else (k, a) for k, a in inp]
